@@ -13,6 +13,9 @@ for f in prog.library_funcs():
     if f.is_lambda:
         continue
     vs = sorted({d["var"] for d in f.events("decl") if d.get("var") and "(lambda at " in (d.get("type") or "")})
+    algos = sorted({"<%s>" % (e.get("callee") or "").split("<")[0] for e in f.events("call")
+                    if (e.get("callee") or "").split("<")[0] in facts.Program.STD_LAMBDA_LOOPS and any(a.get("lam") for a in e.get("args", []))})
+    vs = sorted(set(vs) | set(algos))
     if vs:
         lam.setdefault(f.base, [])
         lam[f.base] = sorted(set(lam[f.base]) | set(vs))
